@@ -13,12 +13,13 @@ variable {α : Type} [Inhabited α]
 
 theorem Heap.read_write_same (h : Heap α) (a : Nat) (v : α) (ha : a < h.length) :
     (h.write a v).read a = v := by
-  simp [Heap.read, Heap.write, List.getElem?_set, ha]
+  simp [Heap.read, Heap.write, ha]
 
 theorem Heap.read_write_other (h : Heap α) (a b : Nat) (v : α) (hab : a ≠ b) :
     (h.write a v).read b = h.read b := by
-  simp [Heap.read, Heap.write, List.getElem?_set, hab]
+  simp [Heap.read, Heap.write, hab]
 
+omit [Inhabited α] in
 @[simp] theorem Heap.length_write (h : Heap α) (a : Nat) (v : α) :
     (h.write a v).length = h.length := by
   simp [Heap.write]
@@ -26,13 +27,18 @@ theorem Heap.read_write_other (h : Heap α) (a b : Nat) (v : α) (hab : a ≠ b)
 theorem Heap.read_alloc_new (h : Heap α) (v : α) : (h.alloc v).1.read (h.alloc v).2 = v := by
   simp [Heap.read, Heap.alloc]
 
+theorem Heap.read_alloc_new' (h : Heap α) (v : α) : (h.alloc v).1.read h.length = v :=
+  Heap.read_alloc_new h v
+
 theorem Heap.read_alloc_old (h : Heap α) (v : α) (b : Nat) (hb : b < h.length) :
     (h.alloc v).1.read b = h.read b := by
   simp [Heap.read, Heap.alloc, List.getElem?_append_left hb]
 
+omit [Inhabited α] in
 @[simp] theorem Heap.length_alloc (h : Heap α) (v : α) : (h.alloc v).1.length = h.length + 1 := by
   simp [Heap.alloc]
 
+omit [Inhabited α] in
 @[simp] theorem Heap.alloc_addr (h : Heap α) (v : α) : (h.alloc v).2 = h.length := rfl
 
 /-- What a call leaves behind: `r` holds `y`, `r` is `out` when `out` is given and a new array
@@ -82,7 +88,8 @@ theorem distVectOut_post (f : α → α) (comb : α → α → Option α) (h : H
   · intro y hy
     cases out with
     | none =>
-      refine ⟨_, _, by simp [distVectOut, hx, hg, hy]; exact ⟨rfl, rfl⟩, ?_⟩
+      refine ⟨((dsVectOut f h ax none).1.alloc y).1, ((dsVectOut f h ax none).1.alloc y).2,
+        by simp [distVectOut, hx, hg, hy] <;> rfl, ?_⟩
       refine ⟨Heap.read_alloc_new _ _, by simp, fun _ => ?_, ?_, ?_⟩
       · simpa using g.grows
       · have := g.grows; simp; omega
@@ -92,7 +99,9 @@ theorem distVectOut_post (f : α → α) (comb : α → α → Option α) (h : H
     | some ao =>
       have hao := hout ao rfl
       have hao' : ao < (dsVectOut f h ax none).1.length := Nat.lt_of_lt_of_le hao g.grows
-      refine ⟨_, _, by simp [distVectOut, hx, hg, hy]; exact ⟨rfl, rfl⟩, ?_⟩
+      refine ⟨(((dsVectOut f h ax none).1.alloc y).1.write ao
+          (((dsVectOut f h ax none).1.alloc y).1.read ((dsVectOut f h ax none).1.alloc y).2)), ao,
+        by simp [distVectOut, hx, hg, hy] <;> rfl, ?_⟩
       refine ⟨?_, fun a ha => by cases ha; rfl, by simp, ?_, ?_⟩
       · rw [Heap.read_write_same _ _ _ (by simp; omega), Heap.read_alloc_new]
       · have := g.grows; simp; omega
@@ -140,5 +149,30 @@ theorem outCorrect_of {β : Type} [Inhabited β] (u : Bool) (f : β → β) (com
     rw [this]
     exact dsVectOut_post f h ax out hout
   | true => simpa using distVectOut_post f comb h ax out hax hout
+
+/-- `OutCorrect` spelled out (the form used in Props/C19.lean). -/
+theorem out_unfold {β : Type} [Inhabited β] {pure : β → Option β}
+    {store : Heap β → Nat → Option Nat → Option (Heap β × Nat)} (hc : OutCorrect pure store)
+    (h : Heap β) (ax : Nat) (out : Option Nat) (hax : ax < h.length)
+    (hout : ∀ ao, out = some ao → ao < h.length) :
+    (pure (h.read ax) = none → store h ax out = none) ∧
+    ∀ y, pure (h.read ax) = some y →
+      ∃ h' r, store h ax out = some (h', r) ∧ h'.read r = y ∧ (∀ ao, out = some ao → r = ao) ∧
+        (∀ b, b < h.length → out ≠ some b → h'.read b = h.read b) := by
+  obtain ⟨h1, h2⟩ := hc h ax out hax hout
+  refine ⟨h1, fun y hy => ?_⟩
+  obtain ⟨h', r, he, hp⟩ := h2 y hy
+  exact ⟨h', r, he, hp.result, hp.isOut, hp.frame⟩
+
+/-! ### A concrete space for the non-vacuity examples: `d` deterministic on `[-1, 3]`, `u` uniform on `[1, 3]` -/
+
+def exampleSpace : PS :=
+  { ds := { vars := [⟨"d", false, [some (-1)], [some 3], none⟩,
+                     ⟨"u", false, [some 1], [some 3], some [2]⟩] },
+    unc := ["u"], dists := [("u", [⟨"U", []⟩])], joint := [⟨"U", []⟩], fam := some "SP" }
+
+def exampleEnv : Env :=
+  { cdf := fun _ x => (x - 1) / 2, icdf := fun _ q => 1 + 2 * q, lb := fun _ => some 1,
+    ub := fun _ => some 3, mean := fun _ => 2 }
 
 end GV.C19
